@@ -413,6 +413,53 @@ func jobC13(c *rt.Ctx) {
 			}
 		}
 	}
+	// TWO defects in ONE entry: every ordered pair of malformed kinds applied to the same entry (a short key
+	// together with S >= L, a truncated signature together with a nil message, ...), in a batch of 5 and in
+	// the second chunk of 70: never a panic, never an error, the entry false (a check that is skipped for an
+	// entry "already known to be bad" must not be the one that guards a later access)
+	c.Require("batch-entries/two-defects")
+	for _, shp := range [][2]int{{5, 2}, {70, 66}, {70, 0}} {
+		for k1 := range kinds {
+			if !c.Take() {
+				continue
+			}
+			c.Class("batch-entries/two-defects")
+			c.Distinct(fmt.Sprintf("two-defects %d %d %d", shp[0], shp[1], k1), true)
+			for k2 := range kinds {
+				if k1 == k2 {
+					continue
+				}
+				vs := vAll[(k1+k2)%len(vAll)]
+				entries := append([]triple{}, fillers(vs, shp[0])...)
+				kinds[k1].mut(&entries[shp[1]])
+				kinds[k2].mut(&entries[shp[1]])
+				zip := (k1+k2)%2 == 0
+				all, valid, err, pv := implBatch(entries, vs, zip, rt.NewRng(c.Seed, "c13d"))
+				c.Step(1)
+				bad := pv != nil || err != nil || len(valid) != shp[0]
+				if !bad {
+					and := true
+					for i, v := range valid {
+						want := true
+						if i == shp[1] {
+							t := entries[i]
+							want = false
+							if len(t.key) == 32 && !(vs.v == ref.Ph && len(t.msg) != 64) {
+								want, _ = modelVerify(t, vs, zip)
+							}
+						}
+						bad = bad || v != want
+						and = and && v
+					}
+					bad = bad || all != and
+				}
+				if bad {
+					c.Violation(fmt.Sprintf("C13 batch two-defects kinds=%s+%s", kinds[k1].name, kinds[k2].name), fmt.Sprintf("VerifyBatch (zip215=%v) with one entry malformed in two ways (%s, then %s) at %d of %d (%s): panic=%v err=%v valid=%v all=%v", zip, kinds[k1].name, kinds[k2].name, shp[1], shp[0], vs, pv, err, valid, all),
+						map[string]interface{}{"kinds": kinds[k1].name + "+" + kinds[k2].name, "pos": shp[1], "n": shp[0], "variant": vs.String(), "zip215": zip})
+				}
+			}
+		}
+	}
 	// the environment as a dimension: one malformed entry in a full chunk (and in a second chunk) under
 	// EVERY GOMAXPROCS value 1..64 and 96, 128, 256 - never a panic, never an error (work that is split
 	// over as many workers as there are processors has its partition cases here)
